@@ -66,7 +66,13 @@ func scratchDir(prefix string) string {
 func NewBTWorld(r *Run, engine string, clk *Clock, dir string) *BTWorld {
 	w := &BTWorld{r: r, Engine: engine, Clk: clk, Dir: dir}
 	simClk = clk
-	opt := bttest.Options{Clock: func() bigtable.Timestamp { return bigtable.Timestamp(clk.ServerUs) }}
+	opt := bttest.Options{Clock: func() bigtable.Timestamp {
+		// a server clock that moves on between two looks at it (ServerTick > 0): a request
+		// that consults it more than once sees different instants
+		v := clk.ServerUs
+		clk.ServerUs += clk.ServerTick
+		return bigtable.Timestamp(v)
+	}}
 	switch engine {
 	case engBtree:
 		opt.Storage = yStorage{bttest.BtreeStorage{}, &w.rows}
